@@ -315,7 +315,48 @@ func (r *storeRun) classify(st stepJ, what string) string {
 		return r.cfg.CleanupProp
 	}
 
+	if st.Op.Name == "Relay" {
+		return "C13" // dump / restore fidelity, whatever family the behaviour belongs to
+	}
+
+	if r.cfg.BaseProp == "C09" {
+		// Key isolation is blamed only where it can be the cause: the operation names one of the colliding keys, Walk
+		// reported a key nobody wrote, or the entry of ANOTHER key than the operation's changed.  Anything else is the
+		// sequential map semantics (C07).
+		if what == "walk" || (r.cfg.Collide && (st.Op.K == "k1" || st.Op.K == "k2")) || what == "state-other-key" {
+			return "C09"
+		}
+
+		return "C07"
+	}
+
 	return r.cfg.BaseProp
+}
+
+// otherKeyDiffers: do expected and observed contents differ for a key other than k?
+func otherKeyDiffers(exp, got []entJ, k string) bool {
+	m := map[string]entJ{}
+	for _, e := range exp {
+		m[e.K] = e
+	}
+
+	seen := map[string]bool{}
+
+	for _, g := range got {
+		seen[g.K] = true
+
+		if g.K != k && m[g.K] != g {
+			return true
+		}
+	}
+
+	for _, e := range exp {
+		if e.K != k && !seen[e.K] {
+			return true
+		}
+	}
+
+	return false
 }
 
 // run replays the behaviour; it returns the first violation (or nil) and the number of steps that agreed.
@@ -376,7 +417,11 @@ func (r *storeRun) run(t *testing.T, bi int, steps []stepJ) (*Violation, int) {
 			sortEnts(exp)
 
 			if fmt.Sprint(exp) != fmt.Sprint(ents) {
-				fail("state", exp, ents)
+				if st.Op.K != "" && otherKeyDiffers(exp, ents, st.Op.K) {
+					fail("state-other-key", exp, ents)
+				} else {
+					fail("state", exp, ents)
+				}
 
 				// Only the usage counters (LRU stamp / LFU count) differ: that is the rank bookkeeping of eviction.
 				if r.cfg.CleanupProp == "C12" && sameButCounters(exp, ents) {
